@@ -20,7 +20,7 @@ import re
 
 from lib import coq_list as L, coq_nat as N
 
-THEOREMS = ['C14_scan_terminates', 'C14_scan_ordered', 'C14_scan_no_ignored_edges', 'C14_scan_positions_global',
+THEOREMS = ['C14_scan_terminates', 'C14_fuel_irrelevant', 'C14_scan_ordered', 'C14_scan_no_ignored_edges', 'C14_scan_positions_global',
             'C14_scan_longest_wrt_tokens', 'C14_scan_value_eq_parse', 'C14_scan_longest', 'C14_scan_no_miss',
             'C14_search_scanner', 'C14_line_counter', 'C14_scan_no_miss_refuted', 'C14_scan_no_miss_head_refuted',
             'C14_example']
@@ -623,7 +623,7 @@ EXOTIC = [
 
 def correspond(ctx):
     rng = ctx.rng
-    ngram = ctx.scale(300, 3000) * (3 if ctx.widen else 1)
+    ngram = ctx.scale(220, 3000) * (3 if ctx.widen else 1)
     cases, meta = [], []
     stats = {}
     built = 0
@@ -681,7 +681,11 @@ def correspond(ctx):
                                 turns=[(t['pos'], t['m'], t['range']) for t in obs['turns']]))
     for k, v in stats.items():
         ctx.histo.setdefault('generator', {})[k] = v
-    bad, errs = ctx.coq_bad_indices('c14', IMPORTS, 'check_case', cases, chunk=250)
+    for k in ('unstable_snippets_prefix-free', 'head_shift_prefix-free', 'head_shift_general'):
+        if stats.get(k):
+            ctx.note('generator left its class: %s = %d (H_stable / H_head are supposed to hold there by construction)'
+                     % (k, stats[k]))
+    bad, errs = ctx.coq_bad_indices('c14', IMPORTS, 'check_case', cases, chunk=170)
     for e in errs:
         ctx.violation('correspondence:coq-eval', {'error': e}, False, e[:300])
     for i in bad[:20]:
